@@ -138,7 +138,7 @@ def run(ctx):
     EX, AU, AX = ("exact",), ("auto",), ("autoexp",)
     # ---- T1: sizes 1..6, every offset in [-n-1, n+1], Exact and the default Auto, trace with both
     for n in range(1, 7):
-        for _ in range(ctx.budget(14, 220)):
+        for _ in range(ctx.budget(14, 140)):
             dt = rnd.choice(T.DTS)
             g = L.SqGen(rnd, dt, nonsq=nonsq_p)
             t = g.tree(n, rnd.randint(0, ctx.budget(3, 4)))
@@ -178,10 +178,11 @@ def run(ctx):
     #      must select the exact algorithm: m*n < 10^11), offsets and trace, default omitted / written out / straddling tolerances
     acases = []
     asizes = [900, 916, 917, 1000, 1100]
-    dts4 = ["float32", "complex64", "float64", "float32", "complex64", "complex128"]
-    rnd.shuffle(dts4)
     for j, n in enumerate(asizes if ctx.tier != "thorough" else asizes * 3):
-        dt = dts4[j % len(dts4)]
+        # single-precision operators on both sides of every size; the sizes >= 917 always see float32 and complex64
+        dt = ["float32", "complex64", "float32", "complex64", rnd.choice(T.DTS)][(j + ctx.seed) % 5] if j < 5 else rnd.choice(T.DTS)
+        if j < 5 and rnd.random() < 0.3 and n < 917:
+            dt = rnd.choice(["float64", "complex128"])
         g = L.SqGen(rnd, dt, vmax=2)
         for _ in range(50):
             t = g.big_cheap_generic(n) if rnd.random() < 0.7 else g.big_dense_generic(n)
